@@ -49,6 +49,9 @@ pub struct SetProg {
 pub struct SetCase {
     pub prog: SetProg,
     pub schedule: Option<Vec<(u64, u8)>>,
+    /// (single, double, tapes, tape seed) the case was being explored with (in-flight files)
+    #[serde(default, skip_serializing_if = "Option::is_none")]
+    pub budget: Option<(usize, usize, usize, u64)>,
 }
 
 pub struct SetOut {
